@@ -16,6 +16,7 @@ from .extract import Source, ExtractionError, REPO
 VERIF = driver.VERIF
 UNITS_OF = {
     "C06": ["fixed_vector"], "C07": ["fixed_vector"],
+    "C17": ["string"],
 }
 
 
@@ -139,7 +140,7 @@ def write_kf_header(path, known):
     for root, _, files in os.walk(os.path.join(VERIF, "units")):
         for fn in files:
             if fn.endswith((".h", ".c")):
-                names.update(re.findall(r"#\s*(?:el)?if\s+KF_(\w+)", open(os.path.join(root, fn)).read()))
+                names.update(re.findall(r"\bKF_([a-z]\w*)\b", open(os.path.join(root, fn)).read()))
     for n in sorted(names):
         lines.append("#ifndef KF_%s\n#define KF_%s 0\n#endif" % (n, n))
     open(path, "w").write("\n".join(lines) + "\n")
@@ -266,11 +267,14 @@ def run_check(prop, a, bdir, seed, t0):
             j.incdirs = [os.path.join(VERIF, "rt"), udir, ud]
             j.kf = kf_of.get(f.name, [])
             jobs.append(j)
-            if j.kf and (a.tier == "thorough" or any(k.get("functions", [None])[0] == f.name for k in j.kf)):
+            for k in j.kf:
                 # region run: is the listed finding still present?  quick: one representative function per finding
-                j2 = driver.Job(uname, f.name + "@region", "h_" + f.name, f.name, rep, [gen_c, har_c], defs + ["NITRO_KF_REGION=1"], rec=f.rec, props=f.props)
+                if not (a.tier == "thorough" or k.get("functions", [None])[0] == f.name):
+                    continue
+                j2 = driver.Job(uname, f.name + "@" + k["name"], "h_" + f.name, f.name, rep, [gen_c, har_c],
+                                defs + ["NITRO_KF_REGION=1", "NITRO_KF_SEL_%s=1" % k["name"]], rec=f.rec, props=f.props)
                 j2.incdirs = j.incdirs
-                j2.kf = j.kf
+                j2.kf = [k]
                 j2.is_full = True
                 jobs.append(j2)
                 loops[j2.name] = f.loops
